@@ -155,8 +155,20 @@ def native_replay(tests, root):
             if re.search(r"error(\[E\d+\])?: ", out) and "test result" not in out:
                 text += "\n(build error: scenario could not be compiled against this tree)\n"
                 continue
-            failed += re.findall(r"^test (\S+) \.\.\. FAILED", out, flags=re.M)
+            failed += ["%s::%s" % (t, n) for n in re.findall(r"^test (\S+) \.\.\. FAILED", out, flags=re.M)]
     return failed, text
+
+
+def known_failing_suites():
+    """scenario suites that reproduce a RECORDED known finding: they fail on the unchanged tree, so their failure
+    confirms nothing about any other counterexample"""
+    out = set()
+    for f in common.load_known():
+        if f.get("status") == "known":
+            m = re.search(r"tests/(\w+)\.rs", f.get("native_replay", ""))
+            if m:
+                out.add(m.group(1))
+    return out
 
 
 def run_obligations(prop, obs, tier):
@@ -202,6 +214,11 @@ def run_obligations(prop, obs, tier):
                     failed, text = (["<recorded>"], "recorded known finding")
                 elif ob.get("replay"):
                     failed, text = native_replay(ob["replay"], ctx.root)
+                    kfs = known_failing_suites()
+                    dropped = [t for t in failed if t.split("::")[0] in kfs]
+                    if dropped:
+                        text += "\n(not counted as reproduction: %s -- suites of recorded known findings fail on the unchanged tree)\n" % dropped
+                    failed = [t for t in failed if t.split("::")[0] not in kfs]
                 if failed:
                     unknown = []
                     for tag in tags:
